@@ -10,6 +10,7 @@ Driver for C19. Case lines (family letter first):
   F <code> <preCT> <format> <nargs> { S <str> | O }* <sprintf> => R <status> <ctype> <body> | E | P
   J <variant> <code> <hasExtra> <extra> <encOK> <enc> => R <status> <ctype> <body> <same> | E <bodylen> <ctype> | P
   H <n> { <op> <args…> <code> <ship…> <keys…> }* => <n> { V <nkeys> { <values…> }* | P }*
+  P <nw> { <calls…> <fmt> <val> <sprintf> }* <npf> …pf => <nw> { <panics> <ncalls> { <answers…> <fresh> }* <bodies…> }*
   R <n> { W <failAt> <mode> (F … | J … | T <kind> <code> <ct> <text>) }* => <n> { R <status> <ctype> <body> <same> | E <delivered> | P }*
 -/
 namespace Rivaas.DriverC19
@@ -228,6 +229,58 @@ def stepR (id : String) (inp obs : List String) : String :=
     verdict id (okLen && vs.all (·.1)) (okLen && vs.all (·.2)) "-" (" ".intercalate (toString ms.length :: ms.map encRModel))
   | _, _ => s!"{id} bad-case"
 
+/-! ### P: requests served concurrently — per call the set of answers over all rounds -/
+
+structure PWorker where
+  calls : List Accept.Call
+  fmt : Bytes
+  val : Bytes
+  sp : Bytes
+
+def pPWorker : P PWorker := do
+  let calls ← list pCall
+  let fmt ← str
+  let val ← str
+  let sp ← str
+  pure { calls := calls, fmt := fmt, val := val, sp := sp }
+
+structure PObs where
+  panics : Nat
+  answers : List (List Bytes × Bytes)     -- distinct answers seen, answer of the call alone
+  bodies : List Bytes
+
+def pPObs : P PObs := do
+  let panics ← nat
+  let answers ← list (do let as ← list str; let f ← str; pure (as, f))
+  let bodies ← list str
+  pure { panics := panics, answers := answers, bodies := bodies }
+
+def stepP (id : String) (inp obs : List String) : String :=
+  match runP (do let ws ← list pPWorker; let tbl ← list pPF; pure (ws, tbl)) inp, runP (list pPObs) obs with
+  | some (ws, tbl), some os =>
+    let pf := mkPF tbl
+    let judge (p : PWorker × PObs) : Bool × Bool :=
+      let w := p.1
+      let o := p.2
+      let mAns := w.calls.map (Accept.answer pf)
+      let mBody := Render.stringfBody w.fmt [Render.Arg.str w.val] w.sp
+      let mi := o.panics == 0 && o.answers.map (·.1) == mAns.map (fun a => [a]) && o.bodies == [mBody]
+      let s := o.panics == 0 && o.answers.length == w.calls.length &&
+        (o.answers.zip w.calls).all (fun q => match q.1.1 with
+          | [a] => a == q.1.2 && AcceptSpec.negotiationOK (q.2.kind == Accept.Kind.accept) q.2.header q.2.offers a
+          | _ => false) &&
+        (match o.bodies with
+          | [b] => b == w.sp && (match RenderSpec.sprintfRef w.fmt [RenderSpec.Arg.str w.val] with
+              | some x => b == x
+              | none => true)
+          | _ => false)
+      (mi, s)
+    let vs := (ws.zip os).map judge
+    let okLen := os.length == ws.length
+    verdict id (okLen && vs.all (·.1)) (okLen && vs.all (·.2)) "-"
+      (" ".intercalate ("P" :: toString ws.length :: ws.map (fun w => encNeg (w.calls.map (Accept.answer pf)))))
+  | _, _ => s!"{id} bad-case"
+
 /-! ### H -/
 
 structure HOp where
@@ -292,6 +345,7 @@ def step (line : String) : String :=
     | "J" :: rest => stepJ id rest obs
     | "H" :: rest => stepH id rest obs
     | "R" :: rest => stepR id rest obs
+    | "P" :: rest => stepP id rest obs
     | _ => s!"{id} bad-case"
 
 end Rivaas.DriverC19
